@@ -100,6 +100,9 @@ def value_worker(case):
                     fl = type(a)._fields[-1]
                     rl = a._replace(**{fl: 'LAST'})
                     ops['replace_last'] = [getattr(rl, fl) == 'LAST', list(rl._asdict().keys()) == list(type(a)._fields)]
+                    z = mod.Z()
+                    ops['fresh_object_has_no_position'] = [getattr(z._metadata, 'position_info', None) is None,
+                                                           not z._metadata]
                     rn = a._replace(**{f0: None})          # None is a value like any other
                     r0 = a._replace(**{f0: 0})
                     ops['replace_none'] = [getattr(rn, f0) is None, getattr(r0, f0) == 0 and getattr(r0, f0) is not None,
